@@ -137,6 +137,15 @@ pub fn run_concurrent(scn: Arc<Scenario>, spec: SchedSpec, max_steps: usize) -> 
         let order: Vec<(usize, usize)> = committed.iter().map(|&(_, th, i)| (th, i)).collect();
         let (ser, ser_fin) = serial_on_fresh_map(&scn, &order);
         let cmp = compare_serial(&order, &outs, &fin, &ser, &ser_fin);
+        if std::env::var("VERIF_TRACE").is_ok() {
+            eprintln!("TRACE concurrent outs: {outs:?}");
+            eprintln!("TRACE commit order: {order:?}");
+            eprintln!("TRACE concurrent final vtx: {:?}", fin.vtx.iter().map(|v| v.map(crate::state::f3)).collect::<Vec<_>>());
+            eprintln!("TRACE concurrent final beta: {:?}", fin.beta);
+            eprintln!("TRACE serial outs: {ser:?}");
+            eprintln!("TRACE serial final vtx: {:?}", ser_fin.vtx.iter().map(|v| v.map(crate::state::f3)).collect::<Vec<_>>());
+            eprintln!("TRACE serial final beta: {:?}", ser_fin.beta);
+        }
         ConcOut { outs, fin, fast_match: cmp.is_ok(), fast_detail: cmp.err().unwrap_or_default(), build_tries: info.tries }
     })
 }
@@ -240,6 +249,61 @@ pub fn serial_survey(scn: &Arc<Scenario>, limit: usize) -> (usize, usize, usize,
         }
     }
     (orders.len(), p, b, msg)
+}
+
+#[derive(Clone, Copy, PartialEq, Eq, Debug)]
+pub enum Symptom {
+    Panics,
+    Blocks,
+}
+
+/// Is there a one-at-a-time execution that shows the same symptom? A transaction of the
+/// concurrent run may legitimately have reported an error instead of committing (it saw a torn
+/// snapshot, or it fails in that position anyway), after which the *later* transactions of its
+/// thread run without its effects; a panicked or deadlocked execution leaves no record of which
+/// transactions committed. So every subset of the abortable transactions is considered omitted
+/// (the others in every program-order-compatible order). Some(true) as soon as one such serial
+/// execution shows the symptom, Some(false) when none does, None when the budget of serial
+/// executions is exhausted (inconclusive).
+pub fn serial_explains(scn: &Arc<Scenario>, what: Symptom, budget: usize) -> (Option<bool>, usize, Option<String>) {
+    use crate::ops::Runner;
+    let abortable: Vec<(usize, usize)> = scn
+        .threads
+        .iter()
+        .enumerate()
+        .flat_map(|(t, txs)| txs.iter().enumerate().filter(|(_, tx)| tx.runner != Runner::Atomically).map(move |(i, _)| (t, i)))
+        .collect();
+    let k = abortable.len().min(12);
+    let mut tried = 0usize;
+    // subsets in order of increasing number of omitted transactions
+    let mut masks: Vec<u32> = (0..(1u32 << k)).collect();
+    masks.sort_by_key(|m| m.count_ones());
+    for mask in masks {
+        let omitted: Vec<(usize, usize)> = (0..k).filter(|b| mask & (1 << b) != 0).map(|b| abortable[b]).collect();
+        let per_thread: Vec<Vec<usize>> = scn
+            .threads
+            .iter()
+            .enumerate()
+            .map(|(t, txs)| (0..txs.len()).filter(|i| !omitted.contains(&(t, *i))).collect())
+            .collect();
+        let remaining = budget.saturating_sub(tried);
+        if remaining == 0 {
+            return (None, tried, None);
+        }
+        let orders = interleavings(&per_thread, remaining);
+        for order in &orders {
+            tried += 1;
+            match run_serial(scn.clone(), order.clone()) {
+                SerialOutcome::Panic(m) if what == Symptom::Panics => return (Some(true), tried, Some(format!("serial order {order:?} (omitting {omitted:?}) panics too: {m}"))),
+                SerialOutcome::Blocks if what == Symptom::Blocks => return (Some(true), tried, Some(format!("serial order {order:?} (omitting {omitted:?}) blocks too"))),
+                _ => {}
+            }
+        }
+        if count_interleavings(&per_thread) > remaining as f64 {
+            return (None, tried, None);
+        }
+    }
+    (Some(false), tried, None)
 }
 
 pub fn committed_set(outs: &[Vec<TxOut>]) -> Vec<(usize, usize)> {
